@@ -378,7 +378,8 @@ where
     for value in values {
         match value {
             Some(Value::Float(n)) => {
-                write_f32_le(writer, *n)?;
+                let raw_value = validate_float(*n)?;
+                write_f32_le(writer, raw_value)?;
             }
             Some(v) => {
                 return Err(io::Error::new(
@@ -391,6 +392,17 @@ where
     }
 
     Ok(())
+}
+
+// The end-of-vector and reserved bit patterns are not values.
+fn validate_float(n: f32) -> io::Result<f32> {
+    match Float::from(n) {
+        Float::EndOfVector | Float::Reserved(_) => Err(io::Error::new(
+            io::ErrorKind::InvalidInput,
+            format!("invalid genotype field float value: {:#010x}", n.to_bits()),
+        )),
+        _ => Ok(n),
+    }
 }
 
 fn write_float_array_values<W>(writer: &mut W, values: &[Option<Value<'_>>]) -> io::Result<()>
@@ -413,7 +425,11 @@ where
             Some(Value::Array(Array::Float(vs))) => {
                 for result in vs.iter() {
                     let v = result?;
-                    let raw_value = v.unwrap_or(f32::from(Float::Missing));
+                    let raw_value = match v {
+                        Some(n) => validate_float(n)?,
+                        None => f32::from(Float::Missing),
+                    };
+
                     write_f32_le(writer, raw_value)?;
                 }
 
